@@ -262,3 +262,29 @@ def concrete_reach(conds, obligations):
                 # the solver says "holds for all values" but a concrete sample fails: engine/harness problem
                 o.verdict = ERROR
                 o.detail = 'concrete sample run fails although condition was confirmed: %r' % (r,)
+
+
+def boundary_probe(prop, conds, obligations, start=500):
+    """Where the solver could NOT conclude (timeout / capped float model), the harness function is additionally run on
+    the condition's concrete boundary samples (cond.extra_samples).  A failing sample is a violation witnessed on the
+    real code; a passing one changes nothing (the obligation stays inconclusive).  Never applied to discharged ones."""
+    by = {o.oid: o for o in obligations}
+    n = start
+    for c in conds:
+        o = by.get(c.oid)
+        if o is None or o.verdict != INCONCLUSIVE or not getattr(c, 'extra_samples', None):
+            continue
+        for args in c.extra_samples:
+            rep = replay_call(c.module, c.fn, args)
+            if rep.get('error') or rep.get('ok'):
+                continue
+            o.verdict = VIOLATED
+            o.replayed = True
+            o.witness = dict(fn=c.fn, args=args, found_by='concrete boundary sample (solver inconclusive)')
+            o.signature = rep.get('explain') or {}
+            o.detail = 'solver inconclusive (%s); concrete boundary sample %r fails: value=%r exc=%r %s' % (
+                o.detail[:80], args, rep.get('value'), rep.get('exc'), json.dumps(rep.get('explain') or {}, sort_keys=True)[:300])
+            n += 1
+            o.replay_path = C.write_replay(prop, n, dict(property=prop, engine='concrete-boundary-sample', kind='e1-call', module=c.module,
+                                                          module_source=open(c.module).read(), fn=c.fn, args=args, kwargs={}, desc=c.desc, explain=rep.get('explain')))
+            break
